@@ -308,6 +308,26 @@ def check_C16(chk, tier, seed):
         for nm in sorted({d["name"] for d in eng.dicts[did].defs} - live_names):
             cases.append(hist_line(did, ("NEW", 272, 4, 0x80, 1, 2), [("ADDNAME", nm, ("L", SAMPLE_LEAF["u32"]))]))
             expect.append(("stale", hist_line(did, ("NEW", 272, 4, 0x80, 1, 2), []), 0, did))
+    # dictionaries that come and go: a dictionary is dropped and another one, declaring a name just used differently (or not
+    # at all), is created right after it - typically at the same address.  What a name resolves to is a function of the
+    # dictionary's content, not of its identity or of what was resolved before.
+    for rnd in range(6 if tier == "quick" else 40):
+        nm = f"X-Quota-{rnd % 2}".encode()
+        for step, d in enumerate([dict(code=9001 + rnd, vendor=None, name=nm, ty="u32", m=True),
+                                  dict(code=9101 + rnd, vendor=10415, name=nm, ty="u32", m=False),
+                                  None,
+                                  dict(code=9201 + rnd, vendor=None, name=nm, ty="u32", m=False)]):
+            other = dict(code=7000, vendor=None, name=b"Other-Name", ty="u32", m=False)
+            cases.append(dict_line("tmpq", [add_toks(other)] + ([add_toks(d)] if d else [])))
+            expect.append(("ctl", None, 0, "-"))
+            v = ("L", SAMPLE_LEAF["u32"])
+            cases.append(hist_line("tmpq", ("NEW", 272, 4, 0x80, 1, 2), [("ADDNAME", nm, v)]))
+            if d:
+                expect.append(("byname", [d], v, "g"))
+            else:
+                expect.append(("stale", hist_line("g", ("NEW", 272, 4, 0x80, 1, 2), []), 0, "g"))
+            cases.append("DROP tmpq")
+            expect.append(("ctl", None, 0, "-"))
     # unknown names interleaved in histories: the failed call must change nothing
     n = 600 if tier == "quick" else 30000
     for i in range(n):
@@ -323,6 +343,8 @@ def check_C16(chk, tier, seed):
     impl, model = eng.run(cases, shards=1)
     ref_lines, ref_idx = [], []
     for i, ex in enumerate(expect):
+        if ex[0] == "ctl":
+            continue
         if ex[0] == "byname":
             ds, v, did = ex[1], ex[2], ex[3]
             for d in ds:
@@ -343,6 +365,10 @@ def check_C16(chk, tier, seed):
         ok = True
         if im.startswith("PANIC") or im.startswith("CRASH"):
             chk.violation("crash: " + short(im, 200), dict(case=c, impl=short(im)))
+            continue
+        if ex[0] == "ctl":
+            if im != "OK":
+                chk.violation("a dictionary could not be created / dropped: " + short(im, 200), dict(case=c, impl=short(im)))
             continue
         if ex[0] == "byname":
             # must equal the explicit-number construction from one of the live definitions carrying that name
@@ -387,5 +413,5 @@ def check_C16(chk, tier, seed):
             chk.sample(dict(case=c, impl=short(im, 160), P=ok))
     chk.rule = ("exhaustive over every name of the built-in, 3GPP and two generated dictionaries: built by name vs built from the explicit numbers of a live "
                 "definition with that name (observation incl. encoding must be identical); names whose key was re-declared under another name (no longer live) "
-                "must be refused; plus generated histories with one unknown-name call inserted at a "
+                "must be refused; dictionaries dropped and re-created (same address) declaring a just-used name differently or not at all; plus generated histories with one unknown-name call inserted at a "
                 "random position, compared with the same history without it")
